@@ -76,6 +76,19 @@ Definition read (h : heap) (b : gbuf) (k : nat) : gbuf * list byte :=
   else let k' := Nat.min k (unread b) in
        (mkbuf (arr b) (off b + k') (fin b), firstn k' (skipn (off b) (get h (arr b)))).
 
+(* io.ReadFull(buf, p) with len(p) = k, as io.ReadAtLeast runs it: Read until k bytes are there or Read fails; Read on an
+   empty buffer resets it and returns io.EOF.  The result: the bytes obtained, and whether the call returned an error
+   (io.EOF when nothing was read, io.ErrUnexpectedEOF otherwise).  binary.Read is ReadFull of the value's size. *)
+Fixpoint read_loop (fuel : nat) (h : heap) (b : gbuf) (need : nat) (acc : list byte) : gbuf * list byte * bool :=
+  match fuel with
+  | O => (b, acc, true)
+  | S f =>
+    if need =? 0 then (b, acc, false)
+    else if unread b =? 0 then (reset b, acc, true)
+    else let (b', out) := read h b need in read_loop f h b' (need - length out) (acc ++ out)
+  end.
+Definition read_full (h : heap) (b : gbuf) (k : nat) : gbuf * list byte * bool := read_loop (S (S k)) h b k [].
+
 (* Bytes() *)
 Definition bytes_of (b : gbuf) : slice := mkslice (arr b) (off b) (unread b).
 
@@ -91,6 +104,7 @@ Inductive bop :=
  | BGrow (nc : nat) (n : nat)
  | BNext (k : nat)          (* the returned slice is remembered *)
  | BRead (k : nat)
+ | BReadFull (k : nat)
  | BReset
  | BBytes                   (* the returned slice is remembered *)
  | BPoke (i : nat) (p : nat) (bs : list byte).   (* copy(remembered[i][p:], bs), when it fits; otherwise nothing *)
@@ -103,6 +117,7 @@ Definition bstep (s : bstate) (o : bop) : option bstate :=
   | BGrow nc n => match grow_only nc (st_h s) (st_b s) n with Some (h, b) => Some (mkst h b (st_sl s)) | None => None end
   | BNext k => let (b, sl) := next (st_b s) k in Some (mkst (st_h s) b (st_sl s ++ [sl]))
   | BRead k => let (b, _) := read (st_h s) (st_b s) k in Some (mkst (st_h s) b (st_sl s))
+  | BReadFull k => let '(b, _, _) := read_full (st_h s) (st_b s) k in Some (mkst (st_h s) b (st_sl s))
   | BReset => Some (mkst (st_h s) (reset (st_b s)) (st_sl s))
   | BBytes => Some (mkst (st_h s) (st_b s) (st_sl s ++ [bytes_of (st_b s)]))
   | BPoke i p bs =>
@@ -143,6 +158,7 @@ Definition astep (c : list byte) (o : bop) : list byte :=
   | BGrow _ _ => c
   | BNext k => skipn k c
   | BRead k => skipn k c
+  | BReadFull k => skipn k c
   | BReset => []
   | BBytes => c
   | BPoke _ _ _ => c      (* only for runs that poke nothing into the unread region: see BufferRefine *)
